@@ -100,7 +100,7 @@ def gen_shape(rng, params):
     return {"args": args, "ukw": ukw, "reserved": reserved}
 
 
-KINDS = ["method", "method", "model_method", "listener_method", "func", "classfunc", "partial", "async_method"]
+KINDS = ["method", "method", "model_method", "listener_method", "func", "classfunc", "partial", "async_method", "async_partial"]
 
 
 GUARD_FORMS = {      # role -> (transition keyword, expression template, value the callback must return to enable `go`)
@@ -126,14 +126,14 @@ def build_source(k, params, kind, group, pair_variant=None):
     if kind == "func":
         L += [f"def {cbname}({sig}):", f"    {body}", ""]
         inline = f", {group}={cbname}"
-    if kind == "partial":
+    if kind in ("partial", "async_partial"):
         first = "first" + (", " + sig if sig else "")
-        L += [f"def _raw_{k}({first}):", f"    {body}", ""]
+        L += [f"{'async ' if kind == 'async_partial' else ''}def _raw_{k}({first}):", f"    {body}", ""]
         inline = f", {group}='pcb'"
     L += [f"class Lis_{k}:"]
     if kind == "listener_method":
         L += [f"    def {cbname}({selfsig}):", f"        {body}"]
-    elif kind == "partial":
+    elif kind in ("partial", "async_partial"):
         L += [f"    pcb = functools.partial(_raw_{k}, 'BOUND')"]
     else:
         L += ["    pass"]
@@ -146,8 +146,8 @@ def build_source(k, params, kind, group, pair_variant=None):
         inline = f", {group}={cbname}"
     if guard:
         kwname, tmpl, _ret = guard
-        if kind in NAMED_KINDS or kind == "partial":
-            ref = repr(tmpl.format(n=cbname if kind != "partial" else "pcb"))
+        if kind in NAMED_KINDS or kind in ("partial", "async_partial"):
+            ref = repr(tmpl.format(n=cbname if kind not in ("partial", "async_partial") else "pcb"))
         else:
             ref = cbname           # function objects cannot be part of an expression string
         if group == "cond_list":
@@ -223,8 +223,8 @@ def run_one(rng, counters, violations, sigs, samples, kind=None, params=None, sh
     params = params or gen_signature(rng)
     kind = kind or rng.choice(KINDS)
     group = group or (rng.choice(["before", "on", "after"]) if rng.random() < 0.7 else rng.choice(sorted(GUARD_FORMS)))
-    if group in GUARD_FORMS and kind == "async_method" and group not in ("cond", "unless", "validators"):
-        kind = "method"          # coroutine names inside expressions are a recorded finding (W13), not C07's subject
+    if group in GUARD_FORMS and kind in ("async_method", "async_partial") and group not in ("cond", "unless", "validators"):
+        kind = "method" if kind == "async_method" else "partial"          # coroutine names inside expressions are a recorded finding (W13), not C07's subject
     if group in GUARD_FORMS and kind in ("func", "classfunc") and group not in ("cond", "unless", "validators", "cond_list"):
         group = {"cond_not": "unless", "cond_bang": "unless", "cond_or": "unless", "unless_not": "cond"}.get(group, "cond")
     notes, tds = [], []
